@@ -8,12 +8,22 @@ no-panic + preservation for the `SharedState` methods: `conversion`, `display`, 
 namespace Chewing.C01
 open Chewing Chewing.C04 Chewing.C05
 
-variable {D L : Type} (env : Env D L) (G : D → Prop)
+variable {D L : Type} (env : Env D L) (G : D → Prop) (w : Prop)
 
-/-- what the conversion result looks like: a chain of non-empty intervals from 0 to the buffer length,
-    one character per covered symbol (C03: `alt_chain`, `one_char_per_symbol`) -/
+/-- what the conversion result looks like on a buffer whose syllables all have a word: a chain of
+    non-empty intervals from 0 to the buffer length, one character per covered symbol (C03: `alt_chain`,
+    `one_char_per_symbol`) -/
 def PathOK (c : Composition) (p : List Interval) : Prop :=
   Conv.IvChain 0 c.symbols.length p ∧ ∀ iv ∈ p, iv.text.length = iv.stop - iv.start
+
+/-- … and on ANY valid buffer (C03: `alt_chain`, `text_at_least_one_per_symbol`): the same chain; an
+    interval's text has at least one character per covered symbol (a syllable without a word is shown as its
+    Bopomofo spelling, one to four characters) -/
+def PathW (c : Composition) (p : List Interval) : Prop :=
+  Conv.IvChain 0 c.symbols.length p ∧ ∀ iv ∈ p, iv.stop - iv.start ≤ iv.text.length
+
+theorem PathOK.weak {c : Composition} {p : List Interval} (h : PathOK c p) : PathW c p :=
+  ⟨h.1, fun iv hm => Nat.le_of_eq (h.2 iv hm).symm⟩
 
 /-- **explicit hypotheses on the environment** (dictionary, conversion engines, estimator).  `G` is
     "this dictionary value is well formed" (the statement quantifies over contexts with well-formed
@@ -33,12 +43,17 @@ structure EnvOK : Prop where
   flush_mono : ∀ d c s, env.hasPhrase d [c] s = true → env.hasPhrase (env.reopenFlush d) [c] s = true
   /-- removing a phrase keeps the dictionary well formed (it may of course remove the last word of a syllable) -/
   remove_good : ∀ d k t, G d → G (env.removePhrase d k t)
-  /-- C03 (`nonempty_result`, `alt_chain`, `one_char_per_symbol`, `fuel_suffices`): on a valid composition
-      whose syllables all have a word under the engine's strategy every engine returns at least one
-      alternative, each a chain over `0..len` with one character per symbol -/
+  /-- C03 (`nonempty_result`, `alt_chain`, `text_at_least_one_per_symbol`, `fuel_suffices`): on EVERY valid
+      composition — with or without a word for each syllable, since the F02 / F03 repair — every engine
+      returns at least one alternative, each a chain over `0..len` whose texts have at least one character
+      per symbol -/
   convert_ok : ∀ k d c, G d → Conv.CompValid c →
+    OkAnd (fun paths => paths ≠ [] ∧ ∀ p ∈ paths, PathW c p) (env.convert k d c)
+  /-- C03 (`one_char_per_symbol`): when every syllable has a word under the engine's strategy, exactly one
+      character per symbol -/
+  convert_len : ∀ k d c paths, G d → Conv.CompValid c →
     (∀ x, Sym.syl x ∈ c.symbols → env.hasPhrase d [x] (engStrategy k) = true) →
-    OkAnd (fun paths => paths ≠ [] ∧ ∀ p ∈ paths, PathOK c p) (env.convert k d c)
+    env.convert k d c = .ok paths → ∀ p ∈ paths, ∀ iv ∈ p, iv.text.length = iv.stop - iv.start
   /-- the frequency estimate does not overflow on the editor path (C08: Δt = 0 there) -/
   estimate_ok : ∀ t f m, ∃ v, env.estimate t f m = .ok v
 
@@ -50,60 +65,73 @@ structure SymWF (y : SymSel) : Prop where
   leaf : ∀ name, (name, none) ∈ y.category → name ≠ []
   idx : ∀ name i, (name, some i) ∈ y.category → i % 256 < y.table.length
 
-/-- **invariant of the shared state** -/
+/-- **invariant of the shared state**, in two strengths: `w = False` is the SAFETY invariant (kept by every
+    operation; enough for no-panic / no-hang since the F02 / F03 repair), `w = True` adds the clause `word`
+    (kept by every operation outside the class `Known`; what the one-character-per-symbol properties need) -/
 structure ShInv (sh : Shared D L) : Prop where
   good : G sh.dict
   ced : CedInv sh.com
-  /-- every buffered syllable has a word under the engine's strategy and under the editor's lookup strategy -/
-  word : ∀ c, Sym.syl c ∈ sh.com.inner.symbols →
+  /-- (strength `w`) every buffered syllable has a word under the engine's strategy and under the editor's
+      lookup strategy -/
+  word : w → ∀ c, Sym.syl c ∈ sh.com.inner.symbols →
     env.hasPhrase sh.dict [c] (engStrategy sh.engine) = true ∧ env.hasPhrase sh.dict [c] sh.options.lookupStrategy = true
-  /-- prefix lookup is only configured together with the fuzzy engine (the C API sets both at once) -/
-  coupled : sh.options.lookupStrategy = .fuzzyPartialPrefix → engStrategy sh.engine = .fuzzyPartialPrefix
+  /-- (strength `w`) prefix lookup is only configured together with the fuzzy engine (the C API sets both at
+      once; only needed to carry `word` from the editor's strategy to the engine's) -/
+  coupled : w → sh.options.lookupStrategy = .fuzzyPartialPrefix → engStrategy sh.engine = .fuzzyPartialPrefix
   perPage : 0 < sh.options.candidatesPerPage
   /-- the symbol tables the editor was created with are well formed -/
   symOK : SymWF sh.symSel
 
-variable {env G}
+variable {env G w}
 
 /-- the invariant only reads `dict`, `com`, `engine` and two options -/
-theorem ShInv.congr {sh sh' : Shared D L} (h : ShInv env G sh) (hd : sh'.dict = sh.dict) (hc : sh'.com = sh.com)
+theorem ShInv.congr {sh sh' : Shared D L} (h : ShInv env G w sh) (hd : sh'.dict = sh.dict) (hc : sh'.com = sh.com)
     (he : sh'.engine = sh.engine) (hl : sh'.options.lookupStrategy = sh.options.lookupStrategy)
     (hp : sh'.options.candidatesPerPage = sh.options.candidatesPerPage)
-    (hy : sh'.symSel = sh.symSel) : ShInv env G sh' := by
+    (hy : sh'.symSel = sh.symSel) : ShInv env G w sh' := by
   refine ⟨hd ▸ h.good, hc ▸ h.ced, ?_, ?_, hp ▸ h.perPage, hy ▸ h.symOK⟩
-  · intro c hcm; rw [hd, he, hl]; rw [hc] at hcm; exact h.word c hcm
+  · intro hw c hcm; rw [hd, he, hl]; rw [hc] at hcm; exact h.word hw c hcm
   · rw [hl, he]; exact h.coupled
 
 /-- a new composition editor whose symbols were all there before -/
-theorem ShInv.setCom {sh : Shared D L} (h : ShInv env G sh) {c : CompEditor} (hp : CedPost sh.com none c) :
-    ShInv env G { sh with com := c } := by
+theorem ShInv.setCom {sh : Shared D L} (h : ShInv env G w sh) {c : CompEditor} (hp : CedPost sh.com none c) :
+    ShInv env G w { sh with com := c } := by
   refine ⟨h.good, hp.1, ?_, h.coupled, h.perPage, h.symOK⟩
-  intro x hx
+  intro hw x hx
   rcases hp.2 _ hx with hm | hm
-  · exact h.word x hm
+  · exact h.word hw x hm
   · cases hm
 
 /-- … or are the new symbol `x`, which (if a syllable) has its words -/
-theorem ShInv.setComIns {sh : Shared D L} (h : ShInv env G sh) {c : CompEditor} {x : Sym} (hp : CedPost sh.com (some x) c)
-    (hx : ∀ k, x = .syl k → env.hasPhrase sh.dict [k] (engStrategy sh.engine) = true ∧
+theorem ShInv.setComIns {sh : Shared D L} (h : ShInv env G w sh) {c : CompEditor} {x : Sym} (hp : CedPost sh.com (some x) c)
+    (hx : w → ∀ k, x = .syl k → env.hasPhrase sh.dict [k] (engStrategy sh.engine) = true ∧
       env.hasPhrase sh.dict [k] sh.options.lookupStrategy = true) :
-    ShInv env G { sh with com := c } := by
+    ShInv env G w { sh with com := c } := by
   refine ⟨h.good, hp.1, ?_, h.coupled, h.perPage, h.symOK⟩
-  intro y hy
+  intro hw y hy
   rcases hp.2 _ hy with hm | hm
-  · exact h.word y hm
-  · cases hm; exact hx y rfl
+  · exact h.word hw y hm
+  · cases hm; exact hx hw y rfl
 
 /-- the buffer is only re-read: cursor moves, cursor stack -/
-theorem ShInv.setComSame {sh : Shared D L} (h : ShInv env G sh) {c : CompEditor} (hc : CedInv c)
-    (hs : c.inner.symbols = sh.com.inner.symbols) : ShInv env G { sh with com := c } :=
+theorem ShInv.setComSame {sh : Shared D L} (h : ShInv env G w sh) {c : CompEditor} (hc : CedInv c)
+    (hs : c.inner.symbols = sh.com.inner.symbols) : ShInv env G w { sh with com := c } :=
   h.setCom ⟨hc, fun s hm => .inl (hs ▸ hm)⟩
 
 /-- a new dictionary value that is well formed and lost no single-syllable word -/
-theorem ShInv.setDict {sh : Shared D L} (h : ShInv env G sh) {d : D} (hg : G d)
+theorem ShInv.setDict {sh : Shared D L} (h : ShInv env G w sh) {d : D} (hg : G d)
     (hm : ∀ c s, env.hasPhrase sh.dict [c] s = true → env.hasPhrase d [c] s = true) :
-    ShInv env G { sh with dict := d } :=
-  ⟨hg, h.ced, fun c hc => ⟨hm _ _ (h.word c hc).1, hm _ _ (h.word c hc).2⟩, h.coupled, h.perPage, h.symOK⟩
+    ShInv env G w { sh with dict := d } :=
+  ⟨hg, h.ced, fun hw c hc => ⟨hm _ _ (h.word hw c hc).1, hm _ _ (h.word hw c hc).2⟩, h.coupled, h.perPage, h.symOK⟩
+
+/-- a new dictionary value that is well formed, whatever happened to its words: the safety invariant only -/
+theorem ShInv.setDictAny {sh : Shared D L} (h : ShInv env G False sh) {d : D} (hg : G d) :
+    ShInv env G False { sh with dict := d } :=
+  ⟨hg, h.ced, fun hw => hw.elim, fun hw => hw.elim, h.perPage, h.symOK⟩
+
+/-- the safety invariant is the word-free part of the full one -/
+theorem ShInv.safe {sh : Shared D L} (h : ShInv env G w sh) : ShInv env G False sh :=
+  ⟨h.good, h.ced, fun hw => hw.elim, fun hw => hw.elim, h.perPage, h.symOK⟩
 
 /-- what dictionary-only methods keep -/
 structure Keeps (env : Env D L) (sh sh' : Shared D L) : Prop where
@@ -122,10 +150,9 @@ theorem Keeps.trans {a b c : Shared D L} (h1 : Keeps env a b) (h2 : Keeps env b 
 
 /-! ## `conversion` / `display` -/
 
-theorem conversion_ok (hE : EnvOK env G) {sh : Shared D L} (h : ShInv env G sh) :
-    OkAnd (PathOK sh.com.inner) (Shared.conversion env sh) := by
-  obtain ⟨paths, hp, hne, hall⟩ := hE.convert_ok sh.engine sh.dict sh.com.inner h.good
-    (compValid_of_cinv h.ced.inner) (fun x hx => (h.word x hx).1)
+theorem conversion_pick {P : List Interval → Prop} (sh : Shared D L) {paths : List (List Interval)}
+    (hp : env.convert sh.engine sh.dict sh.com.inner = .ok paths) (hne : paths ≠ []) (hall : ∀ p ∈ paths, P p) :
+    OkAnd P (Shared.conversion env sh) := by
   unfold Shared.conversion
   rw [hp]
   dsimp only
@@ -140,13 +167,40 @@ theorem conversion_ok (hE : EnvOK env G) {sh : Shared D L} (h : ShInv env G sh) 
     | nil => exact absurd rfl hne
     | cons p ps => exact ⟨p, rfl, hall p (List.mem_cons_self ..)⟩
 
-theorem display_ok (hE : EnvOK env G) {sh : Shared D L} (h : ShInv env G sh) :
-    OkAnd (fun t => t.length = sh.com.inner.symbols.length) (Shared.display env sh) := by
+/-- `conversion` returns on every state satisfying the safety invariant (no `unwrap()` on "no path") -/
+theorem conversion_ok (hE : EnvOK env G) {sh : Shared D L} (h : ShInv env G w sh) :
+    OkAnd (PathW sh.com.inner) (Shared.conversion env sh) := by
+  obtain ⟨paths, hp, hne, hall⟩ := hE.convert_ok sh.engine sh.dict sh.com.inner h.good
+    (compValid_of_cinv h.ced.inner)
+  exact conversion_pick sh hp hne hall
+
+/-- … with one character per symbol when every buffered syllable has a word -/
+theorem conversion_exact (hE : EnvOK env G) {sh : Shared D L} (h : ShInv env G True sh) :
+    OkAnd (PathOK sh.com.inner) (Shared.conversion env sh) := by
+  obtain ⟨paths, hp, hne, hall⟩ := hE.convert_ok sh.engine sh.dict sh.com.inner h.good
+    (compValid_of_cinv h.ced.inner)
+  exact conversion_pick sh hp hne (fun p hm => ⟨(hall p hm).1,
+    hE.convert_len _ _ _ _ h.good (compValid_of_cinv h.ced.inner) (fun x hx => (h.word trivial x hx).1) hp p hm⟩)
+
+theorem display_length_ge {a b : Nat} {l : List Interval} (h : Conv.IvChain a b l)
+    (hl : ∀ iv ∈ l, iv.stop - iv.start ≤ iv.text.length) : b - a ≤ (Conv.display l).length := by
+  induction l generalizing a with
+  | nil => cases h; simp
+  | cons x r ih =>
+    obtain ⟨h1, h2, h3⟩ := h
+    rw [Conv.display_cons, List.length_append]
+    have := ih h3 (fun iv hm => hl iv (List.mem_cons_of_mem _ hm))
+    have := hl x (List.mem_cons_self ..)
+    have := h3.le
+    omega
+
+theorem display_ok (hE : EnvOK env G) {sh : Shared D L} (h : ShInv env G w sh) :
+    OkAnd (fun t => sh.com.inner.symbols.length ≤ t.length) (Shared.display env sh) := by
   obtain ⟨p, hp, hc, ht⟩ := conversion_ok hE h
   unfold Shared.display
   rw [hp]
   refine ⟨_, rfl, ?_⟩
-  have := Conv.display_length hc ht
+  have := display_length_ge hc ht
   simpa [Conv.display] using this
 
 /-! ## `learn_phrase` -/
@@ -157,8 +211,8 @@ theorem estimate_ne_panic (hE : EnvOK env G) (t f m : Nat) (q : String) : env.es
 theorem estimate_ne_fuel (hE : EnvOK env G) (t f m : Nat) : env.estimate t f m ≠ .outOfFuel := by
   obtain ⟨v, hv⟩ := hE.estimate_ok t f m; rw [hv]; intro h; cases h
 
-theorem learnPhrase_ok (hE : EnvOK env G) {sh : Shared D L} (h : ShInv env G sh) (k : List Nat) (p : Text) :
-    OkAnd (fun r => ShInv env G r.1 ∧ Keeps env sh r.1) (Shared.learnPhrase env sh k p) := by
+theorem learnPhrase_ok (hE : EnvOK env G) {sh : Shared D L} (h : ShInv env G w sh) (k : List Nat) (p : Text) :
+    OkAnd (fun r => ShInv env G w r.1 ∧ Keeps env sh r.1) (Shared.learnPhrase env sh k p) := by
   unfold Shared.learnPhrase
   split
   · exact .ok ⟨h, Keeps.refl _⟩
@@ -172,7 +226,7 @@ theorem learnPhrase_ok (hE : EnvOK env G) {sh : Shared D L} (h : ShInv env G sh)
         exact .ok ⟨h.setDict (hE.add_good _ _ _ _ h.good hd hlen) (hE.add_mono _ _ _ _ hd),
           ⟨rfl, rfl, rfl, rfl, rfl, hE.add_mono _ _ _ _ hd⟩⟩
       · exact .ok ⟨h, Keeps.refl _⟩
-    · have hup : ∀ v, ShInv env G { sh with
+    · have hup : ∀ v, ShInv env G w { sh with
           dict := env.updatePhrase sh.dict k { text := p, freq :=
             (((env.lookupAll sh.dict k .standard).find? (fun q => q.text == p)).map (·.freq)).getD 0 } v sh.time,
           dirty := sh.dirty + 1 } := fun v =>
@@ -202,8 +256,8 @@ theorem sylPrefix_length_of_all {l : List Sym} (h : l.any (fun s => !s.isSyl) = 
 
 /-! ## `learn_phrase_in_range_*` (Ctrl+digit, Enter on a highlight) -/
 
-theorem learnInRangeQuiet_ok (hE : EnvOK env G) {sh : Shared D L} (h : ShInv env G sh) (a b : Nat) (hab : a ≤ b) :
-    OkAnd (fun r => ShInv env G r.1 ∧ Keeps env sh r.1) (Shared.learnInRangeQuiet env sh a b) := by
+theorem learnInRangeQuiet_ok (hE : EnvOK env G) {sh : Shared D L} (h : ShInv env G w sh) (a b : Nat) (hab : a ≤ b) :
+    OkAnd (fun r => ShInv env G w r.1 ∧ Keeps env sh r.1) (Shared.learnInRangeQuiet env sh a b) := by
   unfold Shared.learnInRangeQuiet
   split
   · exact .ok ⟨h, Keeps.refl _⟩
@@ -225,13 +279,14 @@ theorem learnInRangeQuiet_ok (hE : EnvOK env G) {sh : Shared D L} (h : ShInv env
           have hlen : ((disp.drop a).take (b - a)).length =
               (sylPrefix ((sh.com.inner.symbols.drop a).take (b - a))).length := by
             rw [sylPrefix_length_of_all (by simpa using hall)]
-            simp only [List.length_take, List.length_drop, hdl]
+            simp only [List.length_take, List.length_drop]
+            omega
           refine .ok ⟨?_, ⟨rfl, rfl, rfl, rfl, rfl, hE.add_mono _ _ _ _ hadd⟩⟩
           exact (h.setDict (hE.add_good _ _ _ _ h.good hadd hlen) (hE.add_mono _ _ _ _ hadd)).congr rfl rfl rfl rfl rfl rfl
         · exact .ok ⟨h, Keeps.refl _⟩
 
-theorem learnInRangeNotify_ok (hE : EnvOK env G) {sh : Shared D L} (h : ShInv env G sh) (a b : Nat) (hab : a ≤ b) :
-    OkAnd (fun r => ShInv env G r.1 ∧ Keeps env sh r.1) (Shared.learnInRangeNotify env sh a b) := by
+theorem learnInRangeNotify_ok (hE : EnvOK env G) {sh : Shared D L} (h : ShInv env G w sh) (a b : Nat) (hab : a ≤ b) :
+    OkAnd (fun r => ShInv env G w r.1 ∧ Keeps env sh r.1) (Shared.learnInRangeNotify env sh a b) := by
   obtain ⟨⟨sh', res⟩, hq, hi, hk⟩ := learnInRangeQuiet_ok hE h a b hab
   unfold Shared.learnInRangeNotify
   rw [hq]
@@ -241,8 +296,8 @@ theorem learnInRangeNotify_ok (hE : EnvOK env G) {sh : Shared D L} (h : ShInv en
 
 /-! ## `auto_learn` -/
 
-theorem autoLearn_flush_ok (hE : EnvOK env G) {sh : Shared D L} (h : ShInv env G sh) (pending : Text) (syls : List Sym) :
-    OkAnd (fun sh' => ShInv env G sh' ∧ Keeps env sh sh') (Shared.autoLearn.flush env sh pending syls) := by
+theorem autoLearn_flush_ok (hE : EnvOK env G) {sh : Shared D L} (h : ShInv env G w sh) (pending : Text) (syls : List Sym) :
+    OkAnd (fun sh' => ShInv env G w sh' ∧ Keeps env sh sh') (Shared.autoLearn.flush env sh pending syls) := by
   unfold Shared.autoLearn.flush
   split
   · exact .ok ⟨h, Keeps.refl _⟩
@@ -251,9 +306,9 @@ theorem autoLearn_flush_ok (hE : EnvOK env G) {sh : Shared D L} (h : ShInv env G
     exact .ok ⟨hi, hk⟩
 
 theorem autoLearn_go_ok (hE : EnvOK env G) (ivs : List Interval) :
-    ∀ (sh : Shared D L) (a : Nat) (pending : Text) (syls : List Sym), ShInv env G sh →
+    ∀ (sh : Shared D L) (a : Nat) (pending : Text) (syls : List Sym), ShInv env G w sh →
       Conv.IvChain a sh.com.inner.symbols.length ivs →
-      OkAnd (fun sh' => ShInv env G sh' ∧ Keeps env sh sh') (Shared.autoLearn.go env sh ivs pending syls) := by
+      OkAnd (fun sh' => ShInv env G w sh' ∧ Keeps env sh sh') (Shared.autoLearn.go env sh ivs pending syls) := by
   induction ivs with
   | nil =>
     intro sh a pending syls h _
@@ -292,8 +347,8 @@ theorem autoLearn_go_ok (hE : EnvOK env G) (ivs : List Interval) :
 
 /-! ## `commit` -/
 
-theorem commit_ok (hE : EnvOK env G) {sh : Shared D L} (h : ShInv env G sh) :
-    OkAnd (fun sh' => ShInv env G sh' ∧ sh'.com = sh.com.clear ∧ sh'.engine = sh.engine ∧ sh'.options = sh.options ∧
+theorem commit_ok (hE : EnvOK env G) {sh : Shared D L} (h : ShInv env G w sh) :
+    OkAnd (fun sh' => ShInv env G w sh' ∧ sh'.com = sh.com.clear ∧ sh'.engine = sh.engine ∧ sh'.options = sh.options ∧
         sh'.symSel = sh.symSel ∧ sh'.syl = sh.syl ∧
         ∀ c s, env.hasPhrase sh.dict [c] s = true → env.hasPhrase sh'.dict [c] s = true)
       (Shared.commit env sh) := by
@@ -301,13 +356,13 @@ theorem commit_ok (hE : EnvOK env G) {sh : Shared D L} (h : ShInv env G sh) :
   unfold Shared.commit
   rw [hq]
   dsimp only
-  have key : ∀ sh1 : Shared D L, ShInv env G sh1 → Keeps env sh sh1 →
-      ShInv env G { sh1 with commitBuf := ivs.flatMap (·.text), com := sh1.com.clear, nth := 0, last := .commit } := by
+  have key : ∀ sh1 : Shared D L, ShInv env G w sh1 → Keeps env sh sh1 →
+      ShInv env G w { sh1 with commitBuf := ivs.flatMap (·.text), com := sh1.com.clear, nth := 0, last := .commit } := by
     intro sh1 hi1 hk1
     refine ⟨hi1.good, ced_clear hi1.ced, ?_, hi1.coupled, hi1.perPage, hi1.symOK⟩
-    intro c hc; simp [CompEditor.clear, Composition.clear] at hc
-  have h0 : ShInv env G { sh with commitBuf := [] } := h.congr rfl rfl rfl rfl rfl rfl
-  have hlearn : OkAnd (fun sh1 => ShInv env G sh1 ∧ Keeps env sh sh1)
+    intro _ c hc; simp [CompEditor.clear, Composition.clear] at hc
+  have h0 : ShInv env G w { sh with commitBuf := [] } := h.congr rfl rfl rfl rfl rfl rfl
+  have hlearn : OkAnd (fun sh1 => ShInv env G w sh1 ∧ Keeps env sh sh1)
       (if !sh.options.disableAutoLearnPhrase then Shared.autoLearn env { sh with commitBuf := [] } ivs
        else .ok { sh with commitBuf := [] }) := by
     split
@@ -341,8 +396,8 @@ theorem autoCommitTake_ok (len th : Nat) (ivs : List Interval) :
     · exact .ok hle
     · exact ih iv.stop _ h3
 
-theorem tryAutoCommit_ok (hE : EnvOK env G) {sh : Shared D L} (h : ShInv env G sh) :
-    OkAnd (fun sh' => ShInv env G sh' ∧ sh'.dict = sh.dict ∧ sh'.engine = sh.engine ∧ sh'.options = sh.options ∧
+theorem tryAutoCommit_ok (hE : EnvOK env G) {sh : Shared D L} (h : ShInv env G w sh) :
+    OkAnd (fun sh' => ShInv env G w sh' ∧ sh'.dict = sh.dict ∧ sh'.engine = sh.engine ∧ sh'.options = sh.options ∧
         sh'.symSel = sh.symSel ∧ sh'.syl = sh.syl ∧ sh'.dirty = sh.dirty)
       (Shared.tryAutoCommit env sh) := by
   unfold Shared.tryAutoCommit
